@@ -198,7 +198,9 @@ func simpleCase(c *lib.Ctx, kind string) {
 	} else {
 		w.kind = "httpapi"
 		batch := 1 + r.Intn(7)
-		srv := httpapitest.StartServer(httpapitest.WithReadBatchSize(batch), httpapitest.WithUnboundedReading())
+		srv := withPort(c, func() *httpapitest.SinkServer {
+			return httpapitest.StartServer(httpapitest.WithReadBatchSize(batch), httpapitest.WithUnboundedReading())
+		})
 		defer srv.Close()
 		nrec := 20 + r.Intn(61)
 		for i := 0; i < nrec; i++ {
